@@ -171,7 +171,9 @@ Definition lt_cost (a b : option (list box)) : bool :=
    bab.upper_bound is threaded through: the result is
    (cover or None if pruned, sub_lb, upper bound afterwards);
    the outer None means that the model ran out of fuel or the code would
-   have failed. *)
+   have failed.  The leaf case is the one of the code AS REPAIRED by
+   fixes/F16.patch (finding F16); the unrepaired leaf is kept in
+   MinCoverOld.v for the regression example. *)
 Fixpoint traverse (fuel : nat) (X Y : list box) (pc ub : nat)
   : option (option (list box) * nat * nat) :=
   match fuel with
@@ -185,7 +187,11 @@ Fixpoint traverse (fuel : nat) (X Y : list box) (pc ub : nat)
           let sub_lb := (cost_ess + core_lb)%nat in
           let branch_lb := (pc + sub_lb)%nat in
           match Xc with
-          | [] => Some (Some E, sub_lb, branch_lb)
+          | [] =>
+              (* leaf, AS REPAIRED by fixes/F16.patch: the essentials are a
+                 candidate only if they improve the upper bound *)
+              if (ub <=? branch_lb)%nat then Some (None, sub_lb, ub)
+              else Some (Some E, sub_lb, branch_lb)
           | _ =>
               if (ub <=? branch_lb)%nat then Some (None, sub_lb, ub)
               else
